@@ -15,8 +15,9 @@ A_MENU = [
     {"type": "CLS:A2"}, {"type": "vkplugins.comps:A2", "x": 3}, {"type": "ep_a2"},
 ]
 G_MENU = [ABSENT, {}, {"y": 2}, {"type": "ep_g2"}, {"type": "CLS:G2", "y": {"n": 1}}, {"extra": [1, 2]}]
-C_MENU = [ABSENT, {"type": "CLS:C"}, {"type": "vkplugins.comps:C", "w": 1}, {"type": "ep_c", "w": {"v": 1}}]
-EP_ALIAS_MENU = [ABSENT, ("ep_c", None), ("ep_c", {"w": 2}), ("ep_k/m", {"tag": "m", "pdef": False}), ("ep_k/m2", {"tag": "m2", "pdef": False})]
+C_MENU = [ABSENT, {"type": "CLS:C"}, {"type": "vkplugins.comps:C", "w": 1}, {"type": "ep_c", "w": {"v": 1}}, {"type": "vkplugins.comps:NS.C2", "w": 5}]
+EP_ALIAS_MENU = [ABSENT, ("ep_c", None), ("ep_c", {"w": 2}), ("ep_k/m", {"tag": "m", "pdef": False}), ("ep_k/m2", {"tag": "m2", "pdef": False}),
+                 ("ep_dyn/d", {"tag": "d"}), ("ep_dyn", {"tag": "e"})]
 KN_MENU = [ABSENT, {"tag": "n2"}, {"type": "ep_k"}]
 GC_MENU = [ABSENT, ("ep_c", None), ("ep_c", {"w": 4}), ("ep_k/q", {"tag": "q", "pdef": False})]
 
@@ -29,8 +30,11 @@ def resolve_cls(t: Any) -> type:
     if t.startswith("CLS:"):
         return getattr(vc, t[4:])
     if ":" in t:
-        return getattr(vc, t.split(":")[1])
-    return {"ep_a2": vc.A2, "ep_g2": vc.G2, "ep_c": vc.C, "ep_k": vc.K}[t]
+        obj: Any = vc
+        for part in t.split(":")[1].split("."):
+            obj = getattr(obj, part)
+        return obj
+    return {"ep_a2": vc.A2, "ep_g2": vc.G2, "ep_c": vc.C, "ep_k": vc.K, "ep_dyn": vc.Dyn}[t]
 
 
 def materialise(x: Any) -> Any:
@@ -91,6 +95,8 @@ def expected_tree(root_cls_name: str, config: dict) -> tuple[list, dict]:
         # default-named factories: remapped in start() only, exactly like resources
         resources[(f"R_{fam0}{tag}_pf", "default")] = f"{cls.__name__}:{tag}:prepare-factory"
         resources[(f"R_{fam0}{tag}_sf", default_name)] = f"{cls.__name__}:{tag}:start-factory"
+        if issubclass(cls, vc.Dyn):
+            visit(vc.Inner, {"tag": "in" + tag}, "default")
         merged = ref_merge(hard(cls, cfg), ext)
         for alias, cc in merged.items():
             cc = dict(cc or {})
@@ -230,7 +236,7 @@ class C14:
                 if tn.endswith("f"):
                     # factories: which names resolve (a child context is used so that nothing is generated in ctx itself)
                     async with Context() as probe:
-                        for name in ("default", "n", "n2", "m", "m2", "q"):
+                        for name in ("default", "n", "n2", "m", "m2", "q", "d"):
                             v = probe.get_resource_nowait(T, name, optional=True)
                             if v is not None:
                                 resources[("R_" + tn, name)] = v.label
